@@ -55,7 +55,34 @@ def build_phase(need_gen=False):
 HUNG = []      # driver invocations of this run that did not terminate: (program, case file, timeout, lines printed)
 
 
+MODEL_CHUNK = 600       # case lines per invocation of the extracted model (each invocation has its own time limit)
+
+
 def run_driver(exe, text, tag, timeout=600, extra_args=(), pre_args=()):
+    if os.path.dirname(exe).endswith('ocaml') and text.startswith('ENV '):
+        # the extracted model is slow on wide schemas with thousands of case lines (and the machine may be busy): run the
+        # case lines in pieces, so that the time limit bounds a piece, not the whole stream (case lines are independent)
+        all_lines = text.split('\n')
+        try:
+            k = all_lines.index('END') + 1
+        except ValueError:
+            k = 0
+        body = [l for l in all_lines[k:] if l != '']
+        if k and len(body) > MODEL_CHUNK:
+            head = '\n'.join(all_lines[:k]) + '\n'
+            rc_all, out_all, err_all = 0, [], ''
+            for j in range(0, len(body), MODEL_CHUNK):
+                rc, out, err = _run_driver(exe, head + '\n'.join(body[j:j + MODEL_CHUNK]) + '\n', tag, timeout, extra_args, pre_args)
+                out_all += out
+                err_all += err
+                if rc != 0:
+                    rc_all = rc
+                    break
+            return rc_all, out_all, err_all
+    return _run_driver(exe, text, tag, timeout, extra_args, pre_args)
+
+
+def _run_driver(exe, text, tag, timeout=600, extra_args=(), pre_args=()):
     d = os.path.join(BUILD, 'cases')
     os.makedirs(d, exist_ok=True)
     p = os.path.join(d, '%s-%d.txt' % (tag, os.getpid()))
@@ -1401,6 +1428,8 @@ def alloc_check(pid, tier, seed):
         sizes = ','.join(s_out[0].split()[1:]) if s_out and s_out[0].startswith('S') else ''
         hl = ['HTRACE %s %s' % (sizes, l.split(' ', 1)[1]) for l in lines]
         rc, h_out, h_err = run_driver(ctx.model, env.text() + '\n'.join(hl) + '\n', pid.lower() + 'h')
+        if HUNG:
+            break           # a driver did not terminate: reported as such by conclude(), partial output is not compared
         # the two models must take the same accept / reject decision when nothing is refused (proved: Proofs/HeapSim.v when present)
         free_runs = [(i, l) for i, l in enumerate(lines) if l.split()[-1] == '-']
         if free_runs:
